@@ -292,6 +292,16 @@ class ValidatedReadBucketProxy(log.PrefixingLogMixin):
             bh = dict(enumerate(blockhashes))
 
             try:
+                if not self.block_hash_tree[0]:
+                    # The root of the block hash tree is this share's leaf
+                    # in the share hash tree (validated by
+                    # get_all_sharehashes): take it from there, so that the
+                    # share's own copy of the tree must match it, instead
+                    # of trusting the root stored in the share.
+                    share_hash = self.share_hash_tree.get_leaf(self.sharenum)
+                    if not share_hash:
+                        raise hashtree.NotEnoughHashesError
+                    self.block_hash_tree.set_hashes({0: share_hash})
                 self.block_hash_tree.set_hashes(bh)
             except IndexError as le:
                 raise BadOrMissingHash(le)
